@@ -318,6 +318,9 @@ def replay_main(argv):
     spec = {"prop": prop, "tier": "replay", "mode": wit.get("mode", "A"), "seed": 0, "shard": 0,
             "params": wit.get("params", {}), "repo": os.path.abspath(os.environ.get("VERIF_REPO", "/repo"))}
     ctx = Ctx(spec, replay=True)
+    # (per-position extras of a shard -- e.g. the batch of datasets pickled by another interpreter in C03 / C07 -- are keyed by
+    # the position of the case in its shard; the witness of such an extra is its own sub-case, so a replay starts beyond them)
+    ctx.index = 10 ** 9
     mod = load_module(prop)
     if hasattr(mod, "setup"):
         mod.setup(ctx)
